@@ -45,7 +45,7 @@ theorem letterClass_asciiAlpha : LetterClass isAsciiAlpha := by
 
 theorem escNotLetter_default : EscNotLetter isAsciiAlpha {} := by
   intro c hc
-  have : ∀ c ∈ Generated.escapedChars, isAsciiAlpha c = false ∧ c ≠ STX := by decide
+  have : ∀ c ∈ Generated.escapedChars, isAsciiAlpha c = false ∧ c ≠ STX ∧ c ≠ '&' := by decide
   exact this c hc
 
 /-! ### another instance: the Unicode letters -/
@@ -91,7 +91,7 @@ theorem letterClass_unicode : LetterClass isLetterU := by
 
 theorem escNotLetter_default_unicode : EscNotLetter isLetterU {} := by
   intro c hc
-  have : ∀ c ∈ Generated.escapedChars, isLetterU c = false ∧ c ≠ STX := by decide
+  have : ∀ c ∈ Generated.escapedChars, isLetterU c = false ∧ c ≠ STX ∧ c ≠ '&' := by decide
   exact this c hc
 
 end MdVerif.Flat
